@@ -1,13 +1,75 @@
 package main
 
-import "gosym/interp"
+import (
+	"fmt"
+	"os"
+	"path/filepath"
+	"strings"
 
-// confirmGated / confirmCrash: native confirmation of schedule- and crash-dependent
-// counterexamples (implemented in gated_replay.go once available).
+	"gosym/interp"
+)
+
+// confirmGated: native confirmation of schedule-dependent counterexamples (gated replay).
 func (r *propRun) confirmGated(j Job, v interp.Violation) (bool, *nativeResult, string) {
 	return false, nil, "gated replay not available"
 }
 
+// materialize writes a file-system image of the engine (paths under /db) into a fresh
+// native directory and returns it.
+func (r *propRun) materialize(img map[string][]byte) (string, error) {
+	dir, err := os.MkdirTemp(r.work, "image")
+	if err != nil {
+		return "", err
+	}
+	for name, data := range img {
+		rel := strings.TrimPrefix(name, "/db/")
+		if rel == name {
+			return "", fmt.Errorf("image file outside the database directory: %s", name)
+		}
+		p := filepath.Join(dir, rel)
+		os.MkdirAll(filepath.Dir(p), 0755)
+		if err := os.WriteFile(p, data, 0644); err != nil {
+			return "", err
+		}
+	}
+	return dir, nil
+}
+
+// crashCase builds the native case for a counterexample (or cover witness) that lies in a
+// recovery phase: the real recovery harness runs on the materialized crash image.
+func (r *propRun) crashCase(id string, j Job, v interp.Violation) (nativeCase, bool) {
+	c := caseOf(id, j, v)
+	if v.Phase == 0 {
+		return c, true // before any crash: an ordinary replay of the workload harness
+	}
+	if v.W.Image == nil {
+		return c, false
+	}
+	dir, err := r.materialize(v.W.Image)
+	if err != nil {
+		return c, false
+	}
+	c.Dir = dir
+	c.Phase = v.Phase
+	return c, true
+}
+
+// confirmCrash replays a crash counterexample: the engine's file-system image at the crash
+// (all bytes concrete and produced by the real encoders) is written to a directory and the
+// real recovery code runs on it natively.
 func (r *propRun) confirmCrash(j Job, v interp.Violation) (bool, *nativeResult, string) {
-	return false, nil, "crash replay not available"
+	c, ok := r.crashCase("v", j, v)
+	if !ok {
+		return false, nil, "no concrete crash image"
+	}
+	c.Obs = nil
+	res, out, err := r.nativeReplay(j, []nativeCase{c}, nil, nil, false)
+	if err != nil {
+		return false, nil, out
+	}
+	nr, ok := res["v"]
+	if !ok {
+		return false, nil, out
+	}
+	return confirms(v, nr), &nr, out
 }
